@@ -5,6 +5,7 @@ CONSTANTS
   Maxes <- FullMaxes
   Methods <- FullMethods
   Shardings <- FullShardings
+  Codes <- FullCodes
   CfgSpace <- FullCfg
   MaxLen = 1000
   AioForwardsMethod = TRUE
